@@ -58,6 +58,9 @@ class Spec:
     skip_prefixes: tuple[str, ...] = ()  # statements whose source starts with one of these have no effect on what is modelled (listed per kernel, trusted)
     pure_calls: dict[str, 'Translated'] = field(default_factory=dict)  # f(args): an already translated function without state which cannot raise
     effect_calls: dict[str, str] = field(default_factory=dict)  # f(e) as a statement ≡ self.<field> = e: the last argument f was called with
+    object_params: tuple[str, ...] = ()  # parameters that are objects, only looked at through `opaque` expressions
+    refusal_returns: bool = False  # `return (code, subcode, text)` is a refusal: PyRes.raise code subcode (the text is not modelled)
+    return_map: dict[str, tuple[str, str]] = field(default_factory=dict)  # `return <source>` ≡ raise (x_<a>, x_<b>): a refusal whose codes are inputs
 
 
 @dataclass
@@ -271,11 +274,21 @@ class _Tr:
             return self.block(tail, [], env, ind)  # docstring
         if isinstance(s, ast.Pass):
             return self.block(tail, [], env, ind)
+        if isinstance(s, ast.Assert):
+            return self.block(tail, [], env, ind)  # an assertion that holds computes nothing
         if isinstance(s, ast.Return):
             if s.value is None:
                 return pad + self.ret(None)
             if isinstance(s.value, ast.Constant) and s.value.value is None:
                 return pad + self.ret(None)
+            if sp.return_map and ast.unparse(s.value) in sp.return_map:
+                a, b = sp.return_map[ast.unparse(s.value)]
+                return pad + f'PyRes.raise x_{a} x_{b}'
+            if sp.refusal_returns and isinstance(s.value, ast.Tuple) and len(s.value.elts) == 3:
+                (a, ta), (b, tb) = (self.expr(x, env) for x in s.value.elts[:2])
+                if ta != 'int' or tb != 'int':
+                    raise Unsupported(f'{self.fname}: refusal codes are not int: {ast.unparse(s.value)[:60]}')
+                return pad + f'PyRes.raise {a} {b}'
             if isinstance(s.value, ast.Tuple) and sp.ret == 'int*int' and len(s.value.elts) == 2:
                 (a, ta), (b, tb) = (self.expr(x, env) for x in s.value.elts)
                 if ta != 'int' or tb != 'int':
@@ -455,7 +468,7 @@ def translate(fn: Any, spec: Spec, lean_name: str | None = None, nested: str | N
         rest = declared
     objs = sorted({o for (o, _a) in spec.attr_params})
     for a in rest:
-        if a not in spec.params and a not in objs:
+        if a not in spec.params and a not in objs and a not in spec.object_params:
             raise Unsupported(f'parameter {a} of {fdef.name} is not declared in the spec')
     tr = _Tr(spec, fdef.name, getattr(fn, '__globals__', None))
     opening = ''.join(f'  let s_{f} : {LEAN_T[t]} := st.{f}\n' for f, t in spec.fields.items())
@@ -466,6 +479,8 @@ def translate(fn: Any, spec: Spec, lean_name: str | None = None, nested: str | N
         params.append((f'p_{o}_{a}', LEAN_T[t]))
     for _src, (nm, t) in spec.opaque.items():
         params.append((f'x_{nm}', LEAN_T[t]))
+    for _src, (a, b) in spec.return_map.items():
+        params += [(f'x_{a}', 'Int'), (f'x_{b}', 'Int')]
     if spec.uses_now:
         params.append(('now', 'Int'))
     sig = ' '.join(f'({n} : {t})' for n, t in params)
